@@ -869,6 +869,66 @@ def _attribute_in_attribute_action(a):
     return {"in_attribute": a}
 
 
+def _add_unconditional_containment(field, type_definition, ir, containment):
+    """Records that type_definition always contains the structure type of field."""
+    if ir_util.field_is_virtual(field):
+        return
+    if ir_util.constant_value(field.existence_condition) is not True:
+        return
+    base_type = ir_util.get_base_type(field.type)
+    contained = ir_util.find_object(base_type.atomic_type.reference, ir)
+    if not contained.has_field("structure"):
+        return
+    container = ir_util.hashable_form_of_reference(type_definition.name)
+    containment.setdefault(container, []).append(
+        (ir_util.hashable_form_of_reference(contained.name), field)
+    )
+
+
+def _check_that_structures_do_not_always_contain_themselves(ir, errors):
+    """Checks that no structure has itself as an unconditional (sub)field.
+
+    `struct Foo: 0 [+4]  Foo  inner`, or Ping containing Pong containing Ping,
+    can be given a size and compiles, but every operation on a view of it -- Ok(),
+    Equals(), CopyFrom() -- descends into the same bytes forever.  A structure
+    that contains itself only under a condition (a nested TLV) ends somewhere.
+    """
+    containment = {}
+    traverse_ir.fast_traverse_ir_top_down(
+        ir,
+        [ir_data.Field],
+        _add_unconditional_containment,
+        parameters={"containment": containment},
+    )
+    reported = set()
+    for start in sorted(containment):
+        # Depth-first search for a path from `start` back to `start`.
+        stack = [(start, [])]
+        seen = set()
+        while stack:
+            node, path = stack.pop()
+            for contained, field in containment.get(node, []):
+                if contained == start:
+                    cycle = frozenset([start] + [name for name, _ in path])
+                    if cycle not in reported:
+                        reported.add(cycle)
+                        first_field = (path + [(contained, field)])[0][1]
+                        errors.append(
+                            [
+                                error.error(
+                                    start[0],
+                                    first_field.source_location,
+                                    "Type '{}' always contains itself.".format(
+                                        start[-1]
+                                    ),
+                                )
+                            ]
+                        )
+                elif contained not in seen:
+                    seen.add(contained)
+                    stack.append((contained, path + [(contained, field)]))
+
+
 def check_early_constraints(ir):
     errors = []
     traverse_ir.fast_traverse_ir_top_down(
@@ -997,4 +1057,5 @@ def check_constraints(ir):
         _check_type_requirements_for_parameter_type,
         parameters={"errors": errors},
     )
+    _check_that_structures_do_not_always_contain_themselves(ir, errors)
     return errors
